@@ -694,7 +694,9 @@ func difference(entriesA iface.IPFSLogOrderedEntries, headsA []iface.IPFSLogEntr
 		eA, okA := entriesA.Get(hash)
 		_, okB := logB.Entries.Get(hash)
 
-		if okA && !okB && eA.GetLogID() == logB.ID {
+		// an entry is only taken under its own hash: an object filed under another key would
+		// otherwise be stored over whatever the log holds under the hash it claims
+		if okA && !okB && eA.GetLogID() == logB.ID && eA.GetHash().String() == hash {
 			res.Set(hash, eA)
 			traversed[hash] = struct{}{}
 			for _, h := range eA.GetNext() {
